@@ -15,29 +15,58 @@ Definition mkO (n d : name) (misc : list (name * json)) (sg : option (polyfunc j
            aod_descr := d; aod_misc := misc |}.
 Definition mkV (n : name) (v : json) : jcmd := AddValue {| av_owner := None; av_name := n; av_val := v |}.
 
-(* an observed result: a document, one of the modelled exception classes, or anything else *)
-Inductive ores := OOk (s : jext) | OErr (e : err) | OOther.
-Definition err_eqb (a b : err) : bool :=
-  match a, b with
-  | NoParentExtension, NoParentExtension | AssertionError, AssertionError | ValueError, ValueError => true
-  | _, _ => false
-  end.
-Definition jext_eqb : jext -> jext -> bool := sext_eqb json_eqb json_eqb json_eqb.
+(* an observed result: a document, or an exception.  The CLASS of an exception is never compared: where the
+   property applies the implementation must not raise at all, and outside the property's domain (documents that
+   are not the serialisation of an extension) the class is unspecified. *)
+Inductive ores := OOk (s : jext) | ORaised.
+
+(* ---- equality of documents up to what the property does not promise ----
+   JSON objects are unordered maps (DESIGN 2.2): the three dictionaries and every misc dictionary compare as
+   multisets of entries (keys are unique); an absent/null misc is the empty dictionary; requirement lists are
+   SETS written as arrays: `req_eq` decides how two of them compare (as multisets when two documents of the
+   implementation are compared with each other -- a requirement list that grows on reload is then seen --, as
+   sets when a document is compared with the model, whose sets are duplicate-free by construction). *)
+Definition omisc (m : option (list (name * json))) : list (name * json) :=
+  match m with Some l => l | None => [] end.
+Definition misc_sim : list (name * json) -> list (name * json) -> bool := perm_eqb (pair_eqb N.eqb json_eqb).
+Section Sim.
+  Variable req_eq : list name -> list name -> bool.
+  Definition spoly_sim (p q : spoly json) : bool :=
+    list_eqb sparam_eqb (sp_params p) (sp_params q) &&
+    list_eqb json_eqb (sf_input (sp_body p)) (sf_input (sp_body q)) &&
+    list_eqb json_eqb (sf_output (sp_body p)) (sf_output (sp_body q)) &&
+    req_eq (sf_reqs (sp_body p)) (sf_reqs (sp_body q)).
+  Definition sopdef_sim (a b : sopdef json json) : bool :=
+    N.eqb (so_extension a) (so_extension b) && N.eqb (so_name a) (so_name b) &&
+    N.eqb (so_descr a) (so_descr b) && misc_sim (omisc (so_misc a)) (omisc (so_misc b)) &&
+    option_eqb spoly_sim (so_signature a) (so_signature b) && Bool.eqb (so_binary a) (so_binary b).
+  Definition sext_sim (a b : jext) : bool :=
+    version_eqb (se_version a) (se_version b) && N.eqb (se_name a) (se_name b) &&
+    req_eq (se_reqs a) (se_reqs b) &&
+    perm_eqb (pair_eqb N.eqb stypedef_eqb) (se_types a) (se_types b) &&
+    perm_eqb (pair_eqb N.eqb (svalue_eqb json_eqb)) (se_values a) (se_values b) &&
+    perm_eqb (pair_eqb N.eqb sopdef_sim) (se_ops a) (se_ops b).
+End Sim.
+Definition set_eq : list name -> list name -> bool := seteq_b N.eqb.
+Definition doc_same : jext -> jext -> bool := sext_sim (perm_eqb N.eqb).     (* implementation vs implementation *)
+Definition doc_corr : jext -> jext -> bool := sext_sim set_eq.               (* implementation vs model *)
+(* observation against the model: where both fail the classes are not compared (the monitor rejects a failure
+   inside the property's domain whatever its class) *)
 Definition ores_eqb (o : ores) (r : res jext) : bool :=
   match o, r with
-  | OOk a, Ok b => jext_eqb a b
-  | OErr a, Err b => err_eqb a b
+  | OOk a, Ok b => doc_corr a b
+  | ORaised, Err _ => true
   | _, _ => false
   end.
 
 (* per operation held by an API-level extension: key, `op.get_extension() is e`, the requirement set
-   of its signature (None: no signature) *)
+   of its signature (None: no signature).  Compared as a map from keys (no order), requirements as sets. *)
 Definition owner_obs := list (name * bool * option (list name)).
 Definition oo_eqb : owner_obs -> owner_obs -> bool :=
-  list_eqb (pair_eqb (pair_eqb N.eqb Bool.eqb) (option_eqb (list_eqb N.eqb))).
+  perm_eqb (pair_eqb (pair_eqb N.eqb Bool.eqb) (option_eqb set_eq)).
 Definition held_obs := list (name * option nat * option (list name)).
 Definition ho_eqb : held_obs -> held_obs -> bool :=
-  list_eqb (pair_eqb (pair_eqb N.eqb (option_eqb Nat.eqb)) (option_eqb (list_eqb N.eqb))).
+  perm_eqb (pair_eqb (pair_eqb N.eqb (option_eqb Nat.eqb)) (option_eqb set_eq)).
 (* name, version and requirement set of an API-level extension *)
 Definition api_obs := (name * version * list name)%type.
 
@@ -45,7 +74,7 @@ Inductive case :=
 (* an extension built through the public API, serialised, loaded back, serialised again *)
 | CHist (n : name) (v : version) (reqs : list name) (cmds : list jcmd)
         (before after : ores) (own1 own2 : owner_obs) (api2 : option api_obs)
-(* a document loaded (r1), written, loaded and written again (r2) *)
+(* a document loaded (r1), written, loaded and written again (r2); must_load: one of the published files *)
 | CDoc (must_load : bool) (doc : jext) (r1 r2 : ores) (own1 : owner_obs)
 (* several extensions (distinct names) and definition objects added to them, possibly the same object to
    several extensions; per extension: document, document after a round trip, owners *)
@@ -56,6 +85,72 @@ Inductive case :=
    that `get_extension()` returns, None if it is none of them or raises; requirement set) *)
 | CWorld (hdrs : list (name * version * list name)) (objs : list jcmd) (prog : list (nat * nat))
          (obs : list (ores * ores * held_obs)).
+
+(* ---- what the document of a history-built extension must say, read off the commands without the model ----
+   per kind, the keys are exactly the definition names that were added, and each entry shows ONE of the
+   definitions added under that name (description, parameters, bound / misc, binary flag, signature with the
+   owner added to the requirement set / constant) and carries the extension's name.  WHICH of several
+   definitions added under one name is held (the last, the first, ...) is the business of add_*, on which
+   the property is silent. *)
+Definition tcmds (cs : list jcmd) := flat_map (fun c : jcmd => match c with AddType t => [t] | _ => [] end) cs.
+Definition ocmds (cs : list jcmd) := flat_map (fun c : jcmd => match c with AddOp d => [d] | _ => [] end) cs.
+Definition vcmds (cs : list jcmd) := flat_map (fun c : jcmd => match c with AddValue v => [v] | _ => [] end) cs.
+Definition type_entry_ok (n : name) (t : atypedef) (kt : name * stypedef) : bool :=
+  N.eqb (atd_name t) (fst kt) && N.eqb (std_name (snd kt)) (fst kt) && N.eqb (std_descr (snd kt)) (atd_descr t) &&
+  list_eqb sparam_eqb (std_params (snd kt)) (map param_ser (atd_params t)) &&
+  sbound_eqb (std_bound (snd kt)) (bound_ser (atd_bound t)) && N.eqb (std_extension (snd kt)) n.
+Definition value_entry_ok (n : name) (v : avalue json) (kv : name * svalue json) : bool :=
+  N.eqb (av_name v) (fst kv) && N.eqb (sv_name (snd kv)) (fst kv) &&
+  json_eqb (sv_typed_value (snd kv)) (av_val v) && N.eqb (sv_extension (snd kv)) n.
+Definition op_entry_ok (n : name) (d : aopdef json json) (ko : name * sopdef json json) : bool :=
+  N.eqb (aod_name d) (fst ko) && N.eqb (so_name (snd ko)) (fst ko) && N.eqb (so_descr (snd ko)) (aod_descr d) &&
+  misc_sim (omisc (so_misc (snd ko))) (aod_misc d) &&
+  Bool.eqb (so_binary (snd ko)) (sig_binary (aod_sig d)) && N.eqb (so_extension (snd ko)) n &&
+  match so_signature (snd ko), sig_poly (aod_sig d) with
+  | None, None => true
+  | Some q, Some p =>
+      list_eqb sparam_eqb (sp_params q) (map param_ser (pf_params p)) &&
+      list_eqb json_eqb (sf_input (sp_body q)) (pf_input p) &&
+      list_eqb json_eqb (sf_output (sp_body q)) (pf_output p) &&
+      set_eq (sf_reqs (sp_body q)) (n :: pf_reqs p)
+  | _, _ => false
+  end.
+Definition hist_doc_ok (n : name) (cs : list jcmd) (s : jext) : bool :=
+  set_eq (map fst (se_types s)) (map atd_name (tcmds cs)) && nodupb N.eqb (map fst (se_types s)) &&
+  forallb (fun kt => existsb (fun t => type_entry_ok n t kt) (tcmds cs)) (se_types s) &&
+  set_eq (map fst (se_values s)) (map (@av_name json) (vcmds cs)) && nodupb N.eqb (map fst (se_values s)) &&
+  forallb (fun kv => existsb (fun v => value_entry_ok n v kv) (vcmds cs)) (se_values s) &&
+  set_eq (map fst (se_ops s)) (map (@aod_name json json) (ocmds cs)) && nodupb N.eqb (map fst (se_ops s)) &&
+  forallb (fun ko => existsb (fun d => op_entry_ok n d ko) (ocmds cs)) (se_ops s).
+
+(* ---- the implementation's choice among definitions added under one name, as an oracle for the model ----
+   `held n s c`: the document s shows command c's definition under c's name.  A command is dropped from the
+   history given to the model when another command of the same kind and name is the one the document shows
+   (the last such command if several are shown equally); when the document shows none of them the history
+   is left alone (the model's own choice, the last, is then compared and the difference is seen). *)
+Definition held (n : name) (s : jext) (c : jcmd) : bool :=
+  match c with
+  | AddType t => existsb (type_entry_ok n t) (se_types s)
+  | AddOp d => existsb (op_entry_ok n d) (se_ops s)
+  | AddValue v => existsb (value_entry_ok n v) (se_values s)
+  end.
+Definition same_slot (c d : jcmd) : bool :=
+  match c, d with
+  | AddType a, AddType b => N.eqb (atd_name a) (atd_name b)
+  | AddOp a, AddOp b => N.eqb (aod_name a) (aod_name b)
+  | AddValue a, AddValue b => N.eqb (av_name a) (av_name b)
+  | _, _ => false
+  end.
+Fixpoint resolve_from (n : name) (s : jext) (all : list jcmd) (l : list jcmd) : list jcmd :=
+  match l with
+  | [] => []
+  | c :: r =>
+      let slot_shown := existsb (fun d => same_slot c d && held n s d) in
+      if negb (slot_shown all) || (held n s c && negb (slot_shown r))
+      then c :: resolve_from n s all r else resolve_from n s all r
+  end.
+Definition resolve (n : name) (before : ores) (cs : list jcmd) : list jcmd :=
+  match before with OOk s => resolve_from n s cs cs | ORaised => cs end.
 
 (* ---- model side ---- *)
 Definition m_to_serial : extension json json json -> res jext := to_serial jid jid.
@@ -68,7 +163,7 @@ Definition m_owners (e : extension json json json) : owner_obs :=
 Definition m_api (e : extension json json json) : api_obs := (e_name e, e_version e, e_reqs e).
 Definition api_eqb (a b : api_obs) : bool :=
   N.eqb (fst (fst a)) (fst (fst b)) && version_eqb (snd (fst a)) (snd (fst b)) &&
-  list_eqb N.eqb (snd a) (snd b).
+  set_eq (snd a) (snd b).
 
 Definition obj_of_cmd (c : jcmd) : obj json json json :=
   match c with AddType t => OType t | AddOp d => OOp d | AddValue v => OValue v end.
@@ -76,10 +171,32 @@ Definition m_world (hdrs : list (name * version * list name)) (objs : list jcmd)
   share_run {| w_exts := map (fun h => new_ext (fst (fst h)) (snd (fst h)) (snd h)) hdrs;
                w_objs := map obj_of_cmd objs |} prog.
 
+(* ---- the property's domain among documents (written without the model) ----
+   The property speaks of documents obtained by SERIALISING an extension (and of the published files, flagged
+   must_load).  Such a document stores every definition under its own name, every entry names the extension
+   as its owner, every operation has a signature or the binary flag (OpDefSig refuses anything else), has a
+   misc dictionary, and lists the extension among its signature's requirements; requirement sets have no
+   repeated member.  On any other document the property promises nothing: neither whether it loads, nor the
+   class of the exception, nor what it turns into. *)
+Definition doc_wf (s : jext) : bool :=
+  nodupb N.eqb (se_reqs s) &&
+  forallb (fun x : name * stypedef =>
+             N.eqb (fst x) (std_name (snd x)) && N.eqb (std_extension (snd x)) (se_name s)) (se_types s) &&
+  forallb (fun x : name * svalue json =>
+             N.eqb (fst x) (sv_name (snd x)) && N.eqb (sv_extension (snd x)) (se_name s)) (se_values s) &&
+  forallb (fun x : name * sopdef json json =>
+             N.eqb (fst x) (so_name (snd x)) && N.eqb (so_extension (snd x)) (se_name s) &&
+             match so_misc (snd x) with Some _ => true | None => false end &&
+             match so_signature (snd x) with
+             | Some p => mem N.eqb (se_name s) (sf_reqs (sp_body p)) && nodupb N.eqb (sf_reqs (sp_body p))
+             | None => so_binary (snd x)
+             end) (se_ops s).
+Definition in_domain (must_load : bool) (doc : jext) : bool := must_load || doc_wf doc.
+
 Definition corr (c : case) : bool :=
   match c with
   | CHist n v reqs cmds before after own1 own2 api2 =>
-      let e := build (new_ext n v reqs) cmds in
+      let e := build (new_ext n v reqs) (resolve n before cmds) in
       let s := m_to_serial e in
       ores_eqb before s && ores_eqb after (bind s m_reload) && oo_eqb own1 (m_owners e) &&
       match bind s m_deserialize with
@@ -105,12 +222,24 @@ Definition corr (c : case) : bool :=
                  ores_eqb (fst (fst (fst ox))) (m_to_serial (snd (snd ox))) &&
                  ho_eqb (snd (fst ox)) (held_owners (hw_heap w) (fst (snd ox))))
               (combine obs (combine (hw_exts w) (w_exts vw)))
-  | CDoc _ doc r1 r2 own1 =>
-      ores_eqb r1 (m_reload doc) && ores_eqb r2 (bind (m_reload doc) m_reload) &&
-      match m_deserialize doc with
-      | Ok e => oo_eqb own1 (m_owners e)
-      | Err _ => match own1 with [] => true | _ => false end
-      end
+  | CDoc must_load doc r1 r2 own1 =>
+      if in_domain must_load doc then
+        ores_eqb r1 (m_reload doc) && ores_eqb r2 (bind (m_reload doc) m_reload) &&
+        match m_deserialize doc with
+        | Ok e => oo_eqb own1 (m_owners e)
+        | Err _ => match own1 with [] => true | _ => false end
+        end
+      else
+        (* outside the domain the model's outcome on `doc` is not a yardstick; whatever the implementation made
+           of the document (s) IS the serialisation of an extension, and from there on the model applies *)
+        match r1 with
+        | OOk s => ores_eqb r2 (m_reload s) &&
+                   match m_deserialize s with
+                   | Ok e => oo_eqb own1 (m_owners e)
+                   | Err _ => false
+                   end
+        | ORaised => true
+        end
   end.
 
 (* ---- monitor: the specification on the implementation's observations ---- *)
@@ -118,18 +247,16 @@ Definition owners_ok (n : name) (o : owner_obs) : bool :=
   forallb (fun x : name * bool * option (list name) =>
     snd (fst x) && match snd x with Some rs => mem N.eqb n rs | None => true end) o.
 Definition ores_same (a b : ores) : bool :=
-  match a, b with OOk x, OOk y => jext_eqb x y | _, _ => false end.
+  match a, b with OOk x, OOk y => doc_same x y | _, _ => false end.
 Definition ores_owner (a : ores) : bool :=
   match a with OOk x => s_names_owner_b x && s_defs_owner_b x | _ => false end.
 
-(* what loading a foreign document must keep (written without the model): everything, except that
+(* what loading one of the published files must keep (written without the model): everything, except that
    owner fields become the extension's name, the owner joins each signature's requirement set, an
-   absent misc dictionary is written as {}, and requirement sets are sets *)
+   absent misc dictionary is the empty one, and requirement sets are sets; dictionaries are unordered *)
 Definition op_kept (n : name) (a b : sopdef json json) : bool :=
   N.eqb (so_name a) (so_name b) && N.eqb (so_descr a) (so_descr b) &&
-  misc_eqb json_eqb (match so_misc a with Some m => m | None => [] end)
-                    (match so_misc b with Some m => m | None => [] end) &&
-  match so_misc b with Some _ => true | None => false end &&
+  misc_sim (omisc (so_misc a)) (omisc (so_misc b)) &&
   Bool.eqb (so_binary a) (so_binary b) && N.eqb (so_extension b) n &&
   match so_signature a, so_signature b with
   | None, None => true
@@ -137,89 +264,34 @@ Definition op_kept (n : name) (a b : sopdef json json) : bool :=
       list_eqb sparam_eqb (sp_params p) (sp_params q) &&
       list_eqb json_eqb (sf_input (sp_body p)) (sf_input (sp_body q)) &&
       list_eqb json_eqb (sf_output (sp_body p)) (sf_output (sp_body q)) &&
-      seteq_b N.eqb (n :: sf_reqs (sp_body p)) (sf_reqs (sp_body q)) && nodupb N.eqb (sf_reqs (sp_body q))
+      set_eq (n :: sf_reqs (sp_body p)) (sf_reqs (sp_body q))
   | _, _ => false
   end.
 Definition doc_kept (a b : jext) : bool :=
   version_eqb (se_version a) (se_version b) && N.eqb (se_name a) (se_name b) &&
-  seteq_b N.eqb (se_reqs a) (se_reqs b) && nodupb N.eqb (se_reqs b) &&
-  list_eqb (fun x y : name * stypedef =>
+  set_eq (se_reqs a) (se_reqs b) &&
+  perm_eqb (fun x y : name * stypedef =>
               N.eqb (fst x) (fst y) && N.eqb (std_extension (snd y)) (se_name a) &&
               N.eqb (std_name (snd x)) (std_name (snd y)) && N.eqb (std_descr (snd x)) (std_descr (snd y)) &&
               list_eqb sparam_eqb (std_params (snd x)) (std_params (snd y)) &&
               sbound_eqb (std_bound (snd x)) (std_bound (snd y))) (se_types a) (se_types b) &&
-  list_eqb (fun x y : name * svalue json =>
+  perm_eqb (fun x y : name * svalue json =>
               N.eqb (fst x) (fst y) && N.eqb (sv_extension (snd y)) (se_name a) &&
               N.eqb (sv_name (snd x)) (sv_name (snd y)) &&
               json_eqb (sv_typed_value (snd x)) (sv_typed_value (snd y))) (se_values a) (se_values b) &&
-  list_eqb (fun x y : name * sopdef json json =>
+  perm_eqb (fun x y : name * sopdef json json =>
               N.eqb (fst x) (fst y) && op_kept (se_name a) (snd x) (snd y)) (se_ops a) (se_ops b).
-(* when a document is refused: a key differs from the name of its entry, or an operation has neither
-   a signature nor the binary flag *)
-Definition doc_loadable (s : jext) : bool :=
-  forallb (fun x : name * stypedef => N.eqb (fst x) (std_name (snd x))) (se_types s) &&
-  forallb (fun x : name * svalue json => N.eqb (fst x) (sv_name (snd x))) (se_values s) &&
-  forallb (fun x : name * sopdef json json =>
-             N.eqb (fst x) (so_name (snd x)) &&
-             match so_signature (snd x) with Some _ => true | None => so_binary (snd x) end) (se_ops s).
-
-(* what the document of a history-built extension must say, read off the commands without the model:
-   per kind, the keys are the definition names in order of first addition and each entry shows the
-   definition LAST added under that name; operations additionally list the extension among their
-   requirements; every entry carries the extension's name *)
-Definition last_of {A} (nm : A -> name) (k : name) (l : list A) : option A :=
-  fold_left (fun acc x => if N.eqb (nm x) k then Some x else acc) l None.
-Definition first_keys (l : list name) : list name :=
-  rev (fold_left (fun acc k => if mem N.eqb k acc then acc else k :: acc) l []).
-Definition tcmds (cs : list jcmd) := flat_map (fun c : jcmd => match c with AddType t => [t] | _ => [] end) cs.
-Definition ocmds (cs : list jcmd) := flat_map (fun c : jcmd => match c with AddOp d => [d] | _ => [] end) cs.
-Definition vcmds (cs : list jcmd) := flat_map (fun c : jcmd => match c with AddValue v => [v] | _ => [] end) cs.
-Definition hist_doc_ok (n : name) (cs : list jcmd) (s : jext) : bool :=
-  list_eqb N.eqb (map fst (se_types s)) (first_keys (map atd_name (tcmds cs))) &&
-  forallb (fun kt : name * stypedef =>
-    match last_of atd_name (fst kt) (tcmds cs) with
-    | Some t => N.eqb (std_name (snd kt)) (fst kt) && N.eqb (std_descr (snd kt)) (atd_descr t) &&
-                list_eqb sparam_eqb (std_params (snd kt)) (map param_ser (atd_params t)) &&
-                sbound_eqb (std_bound (snd kt)) (bound_ser (atd_bound t)) && N.eqb (std_extension (snd kt)) n
-    | None => false
-    end) (se_types s) &&
-  list_eqb N.eqb (map fst (se_values s)) (first_keys (map (@av_name json) (vcmds cs))) &&
-  forallb (fun kv : name * svalue json =>
-    match last_of (@av_name json) (fst kv) (vcmds cs) with
-    | Some v => N.eqb (sv_name (snd kv)) (fst kv) && json_eqb (sv_typed_value (snd kv)) (av_val v) &&
-                N.eqb (sv_extension (snd kv)) n
-    | None => false
-    end) (se_values s) &&
-  list_eqb N.eqb (map fst (se_ops s)) (first_keys (map (@aod_name json json) (ocmds cs))) &&
-  forallb (fun ko : name * sopdef json json =>
-    match last_of (@aod_name json json) (fst ko) (ocmds cs) with
-    | Some d => N.eqb (so_name (snd ko)) (fst ko) && N.eqb (so_descr (snd ko)) (aod_descr d) &&
-                option_eqb (misc_eqb json_eqb) (so_misc (snd ko)) (Some (aod_misc d)) &&
-                Bool.eqb (so_binary (snd ko)) (sig_binary (aod_sig d)) && N.eqb (so_extension (snd ko)) n &&
-                match so_signature (snd ko), sig_poly (aod_sig d) with
-                | None, None => true
-                | Some q, Some p =>
-                    list_eqb sparam_eqb (sp_params q) (map param_ser (pf_params p)) &&
-                    list_eqb json_eqb (sf_input (sp_body q)) (pf_input p) &&
-                    list_eqb json_eqb (sf_output (sp_body q)) (pf_output p) &&
-                    seteq_b N.eqb (sf_reqs (sp_body q)) (n :: pf_reqs p) && nodupb N.eqb (sf_reqs (sp_body q))
-                | _, _ => false
-                end
-    | None => false
-    end) (se_ops s).
-
 Definition mon (c : case) : bool :=
   match c with
   | CHist n v reqs cmds before after own1 own2 api2 =>
       ores_same before after && ores_owner before &&
       owners_ok n own1 && owners_ok n own2 &&
       match api2 with
-      | Some (n2, v2, r2) => N.eqb n2 n && version_eqb v2 v && seteq_b N.eqb r2 reqs
+      | Some (n2, v2, r2) => N.eqb n2 n && version_eqb v2 v && set_eq r2 reqs
       | None => false
       end &&
       match before with OOk s => N.eqb (se_name s) n && version_eqb (se_version s) v &&
-                                 seteq_b N.eqb (se_reqs s) reqs && nodupb N.eqb (se_reqs s) &&
-                                 hist_doc_ok n cmds s
+                                 set_eq (se_reqs s) reqs && hist_doc_ok n cmds s
                    | _ => false end
   | CShared hdrs objs prog obs =>
       Nat.eqb (length obs) (length hdrs) &&
@@ -236,18 +308,27 @@ Definition mon (c : case) : bool :=
                  let '(n, v, reqs) := snd (snd ioh) in
                  ores_same before after && ores_owner before && held_obs_ok (fst ioh) n own &&
                  match before with
-                 | OOk s => N.eqb (se_name s) n && version_eqb (se_version s) v &&
-                            seteq_b N.eqb (se_reqs s) reqs && nodupb N.eqb (se_reqs s)
+                 | OOk s => N.eqb (se_name s) n && version_eqb (se_version s) v && set_eq (se_reqs s) reqs
                  | _ => false
                  end)
               (combine (seq 0 (length hdrs)) (combine obs hdrs))
   | CDoc must_load doc r1 r2 own1 =>
-      match r1 with
-      | OOk s => doc_loadable doc && doc_kept doc s && s_names_owner_b s && ores_same r1 r2 &&
-                 owners_ok (se_name doc) own1
-      | OErr _ => negb must_load && negb (doc_loadable doc)
-      | OOther => false
-      end
+      if in_domain must_load doc then
+        (* the serialisation of an extension, or a published file: it loads, everything is kept, the written
+           document is a fixed point, the loaded extension owns its operations *)
+        match r1 with
+        | OOk s => doc_kept doc s && ores_owner r1 && ores_same r1 r2 &&
+                   owners_ok (se_name doc) own1
+        | ORaised => false
+        end
+      else
+        (* not the serialisation of any extension: refusing it (with whatever exception) is as good as
+           accepting it; if it is accepted, the result is an extension, and the property speaks about THAT:
+           its document is a fixed point of load-and-write and it owns its operations *)
+        match r1 with
+        | OOk s => ores_owner r1 && ores_same r1 r2 && owners_ok (se_name s) own1
+        | ORaised => true
+        end
   end.
 
 (* ---- helper rows (extra check): evaluated one by one so that a failing helper is named ---- *)
